@@ -93,7 +93,12 @@ pub fn write_float_scientific<const FORMAT: u128>(
     sci_exp: i32,
     options: &Options,
 ) -> usize {
-    debug_assert!(rtrim_char_count(&digits[..digit_count], b'0') == 0 || digit_count == 1);
+    // Grisu never generates trailing zeros, but rounding to `max_significant_digits` can.
+    debug_assert!(
+        options.max_significant_digits().is_some()
+            || rtrim_char_count(&digits[..digit_count], b'0') == 0
+            || digit_count == 1
+    );
     debug_assert!(digit_count <= 20);
 
     // Config options
@@ -151,7 +156,11 @@ pub fn write_float_negative_exponent<const FORMAT: u128>(
     sci_exp: i32,
     options: &Options,
 ) -> usize {
-    debug_assert!(rtrim_char_count(&digits[..digit_count], b'0') == 0);
+    // Grisu never generates trailing zeros, but rounding to `max_significant_digits` can.
+    debug_assert!(
+        options.max_significant_digits().is_some()
+            || rtrim_char_count(&digits[..digit_count], b'0') == 0
+    );
     debug_assert!(digit_count <= 20);
     debug_assert!(sci_exp < 0);
 
@@ -195,7 +204,12 @@ pub fn write_float_positive_exponent<const FORMAT: u128>(
     sci_exp: i32,
     options: &Options,
 ) -> usize {
-    debug_assert!(rtrim_char_count(&digits[..digit_count], b'0') == 0 || digit_count == 1);
+    // Grisu never generates trailing zeros, but rounding to `max_significant_digits` can.
+    debug_assert!(
+        options.max_significant_digits().is_some()
+            || rtrim_char_count(&digits[..digit_count], b'0') == 0
+            || digit_count == 1
+    );
     debug_assert!(digit_count <= 20);
     debug_assert!(sci_exp >= 0);
 
